@@ -341,6 +341,25 @@ CHECKS["C13"] = dict(
     assumptions=["initial routes come from libavoid (UseLeesAlgorithm, no invisibility graph), as in libtopology/tests/beautify.cpp"],
 )
 
+CHECKS["C20"] = dict(
+    stages=[stage("C20", flavour="plain", quick=dict(cases=40000, size=100, shards=12), thorough=dict(cases=400000, size=100, shards=16), case_timeout=600)],
+    technique="rapidcheck metamorphic testing: repeat under a permuted allocation order (custom operator new), exact translation, the seven "
+              "non-trivial symmetries of the square",
+    level_text="For generated VPSC problems (three solvers), rectangle sets with coincident/aligned rectangles (removeoverlaps with fixed sets and "
+               "third pass), routing scenes (both modes, convex polygons, several connectors, nudging) and small force-directed layouts: the "
+               "same calls are made twice in one process with heap churn in between and with the harness's allocator handing out "
+               "addresses in a different pseudo-random order; VPSC positions, flags, removeoverlaps results and routes must be bit-identical, "
+               "layout positions equal to 1e-9.  Translating a VPSC problem, a rectangle set or a routing scene by a multiple of 2^-10 "
+               "translates positions to 1e-6 and leaves every route cost unchanged to 1e-6; rotating or mirroring a routing scene by each "
+               "of the 7 symmetries leaves every connector's cost unchanged to 1e-9 relative.",
+    level_note="Built without sanitizers (g++ -O1) because the harness replaces operator new/delete.  Order independence of VPSC input is checked in C02 "
+               "(both orders against the certified optimum).  Hyperedge improvement and HOLA are not in the repeat set.",
+    rule="rapidcheck-generated metamorphic pairs; non-trivial = the case has something to tie-break or to bend around: a VPSC constraint violated "
+         "by the desired positions, two rectangles with equal centre coordinates, a route with a bend, a layout of >= 3 nodes; distinct by FNV-1a of the case text",
+    min_nontrivial=dict(quick=10000, thorough=100000),
+    assumptions=["all translated coordinates stay below 2^20 in magnitude so every translated input is exactly representable"],
+)
+
 # every check treats a library assertion at a site that is not a listed C15 finding as a violation of its own property
 for _k in CHECKS:
     NOT_APPLICABLE.pop(_k, None)
